@@ -124,6 +124,8 @@ impl TdSut {
                 let span = mn.abs().max(mx.abs()).max(1.0) * 8.0 * f64::EPSILON;
                 let cq_lo: Vec<i64> = (0..=self.qd).map(|a| { let v = d.quantile(a as f64 / self.qd as f64); if v.is_nan() { NAN_FP } else { fx(d.cdf(v - span)) } }).collect();
                 let cq_hi: Vec<i64> = (0..=self.qd).map(|a| { let v = d.quantile(a as f64 / self.qd as f64); if v.is_nan() { NAN_FP } else { fx(d.cdf(v + span)) } }).collect();
+                // the two infinite query points ("0 below min() and 1 from max() upward", "an empty digest returns 0")
+                let cdf_inf: Vec<i64> = vec![fx(d.cdf(f64::NEG_INFINITY)), fx(d.cdf(f64::INFINITY))];
                 let q2: Vec<i64> = (0..=self.qd).map(|a| fx(d.quantile(a as f64 / self.qd as f64))).collect();
                 let cdf2: Vec<i64> = (0..self.xn).map(|k| fx(d.cdf((self.xlo2 + k) as f64 / 2.0))).collect();
                 let reread = q == q2 && cdf == cdf2 && d.count() == count && d.sum() == sum && d.n_centroids() == ncent;
@@ -153,7 +155,7 @@ impl TdSut {
                 let mean_exact = if self.ghost.any { mean == gx / gw } else { mean.is_nan() };
                 json!({"count16": sc16(count), "sum16": sc16(sum), "mean_exact": mean_exact, "empty": empty, "ncent": ncent,
                        "mn": if mn.is_finite() { mn as i64 } else { INF }, "mx": if mx.is_finite() { mx as i64 } else { -INF },
-                       "q": q, "cdf": cdf, "cq": cq, "cq_lo": cq_lo, "cq_hi": cq_hi, "reread_same": reread, "first_read_same": first_same,
+                       "q": q, "cdf": cdf, "cdf_inf": cdf_inf, "cq": cq, "cq_lo": cq_lo, "cq_hi": cq_hi, "reread_same": reread, "first_read_same": first_same,
                        "res_fp": (share * FP).ceil() as i64})
             })
         });
